@@ -38,7 +38,7 @@ INVS = ("INVARIANTS TypeOK C18_Deadline C18_FindsHealthy C18_TcpRetry C18_Untrus
 
 # the shape of the one root cause behind several give-up classes (see proposed/C18-findings.txt)
 UDP_DROPPED = "udp-only-servers-dropped-after-truncated-reply"
-PRIORITY = ["panic", "deadline-exceeded", "exchange-not-shared", "shared-result-differs", "answer-without-exchange",
+PRIORITY = ["panic", "deadline-exceeded", "connect-timeout-not-honoured", "exchange-not-shared", "shared-result-differs", "answer-without-exchange",
             "nxdomain-without-exchange", "truncated-without-exchange", "untrusted-nx-ended-search",
             "truncated-not-retried-over-tcp", "busy-server-not-retried", "healthy-server-not-used",
             "request-for-another-query", "caller-never-completed", "unexpected-result"]
@@ -74,11 +74,14 @@ def run(res, tier, seed):
                 "timeouts) with its caller arrival times; non-trivial = at least two upstream requests were made or "
                 "two callers were involved; distinct by content hash of configuration and arrival times")
     res.assumptions = [
-        "scripted ConnectionProvider/DnsHandle (harness/src/bin/drive_pool.rs) is the only source of upstream replies; "
+        "scripted ConnectionProvider/DnsHandle (harness/src/bin/drive_pool/main.rs) is the only source of upstream replies; "
         "the per-attempt timeout `ta` is enforced by the scripted connection as the stock connections do",
         "all timers and the pool deadline read tokio's paused clock (hook H3); times are exact milliseconds",
-        "a busy server owes an answer only if it said busy once and was never asked again (how often a busy server is "
-        "retried beyond that is left open by the statement)",
+        "a busy server is owed another request while less than 300 ms have passed since its first busy reply in the lookup "
+        "(the back-off the pool documents: pauses of 20/40/80/160 ms between passes over the busy servers)",
+        "second binding level (socket): the real ConnectionProvider impl over a scripted RuntimeProvider "
+        "(harness/src/bin/drive_pool/sock.rs), i.e. real DnsExchange/DnsMultiplexer/TcpClientStream/UdpClientStream with "
+        "their own request and connect timeouts; callers are sequential there and Busy cannot be scripted",
         "an answer due at exactly the deadline may win or lose against it (both accepted)",
         "SERVFAIL/REFUSED/NODATA replies are outside the statement's fault alphabet and not generated",
     ]
@@ -90,7 +93,9 @@ def run(res, tier, seed):
     runs = [("MC_Pool", os.path.join(vlib.SPEC, "MC_Pool.cfg"), ("CallJoin", "Join")),
             ("MC_Pool_shared", os.path.join(vlib.SPEC, "MC_Pool_shared.cfg"), ()),
             ("MC_Pool_three", os.path.join(vlib.SPEC, "MC_Pool_three.cfg"), ("CallJoin", "Join")),
-            ("MC_Pool_live", os.path.join(vlib.SPEC, "MC_Pool_live.cfg"), ("DeadlineInFlight",))]
+            ("MC_Pool_live", os.path.join(vlib.SPEC, "MC_Pool_live.cfg"), ("DeadlineInFlight",)),
+            ("MC_Pool_busy", os.path.join(vlib.SPEC, "MC_Pool_busy.cfg"), ("CallJoin", "Join", "DeadlineInRound", "DeadlineInFlight")),
+            ("MC_Pool_sock", os.path.join(vlib.SPEC, "MC_Pool_sock.cfg"), ("Backoff",))]
     if thorough:
         runs.append(("MC_Pool_shared3", write_cfg(wd, "MC_Pool_shared3", spec="Spec", configs="MC_Shared", k=3, dl="required",
                                                   udp="required", tail=INVS), ()))
@@ -101,7 +106,8 @@ def run(res, tier, seed):
         res.add_mc(name, st)
     # the rules the code follows today, kept as documented counterexamples (never used for conformance)
     asis = {}
-    for name, inv in [("MC_Pool_AsIsDeadline", "C18_Deadline"), ("MC_Pool_AsIsUdp", "C18_FindsHealthy")]:
+    for name, inv in [("MC_Pool_AsIsDeadline", "C18_Deadline"), ("MC_Pool_AsIsUdp", "C18_FindsHealthy"),
+                      ("MC_Pool_ShortBackoff", "C18_FindsHealthy")]:
         rc, out = vlib.tlc(mc_tla, os.path.join(vlib.SPEC, name + ".cfg"), wd, workers=1, timeout=300)
         if f"Invariant {inv} is violated" not in out:
             vlib.log(out[-3000:])
@@ -110,14 +116,16 @@ def run(res, tier, seed):
     res.extra["asis_counterexamples"] = asis
 
     # ---- R (+ T on the same runs)
-    gens = [("G_two", "MC_Two", 1), ("G_shared", "MC_Shared", 2)]
+    # (generator, configuration set, callers, binding level)
+    gens = [("G_two", "MC_Two", 1, "connection"), ("G_shared", "MC_Shared", 2, "connection"),
+            ("G_busy", "MC_Busy", 1, "connection"), ("G_sock", "MC_Sock", 2, "socket")]
     if thorough:
-        gens += [("G_three", "MC_Three", 1), ("G_shared3", "MC_Shared", 3)]
+        gens += [("G_three", "MC_Three", 1, "connection"), ("G_shared3", "MC_Shared", 3, "connection")]
     traces = []
     verdicts = {}      # case id -> verdict
     total = 0
     stats = {"answer": 0, "nx": 0, "trunc": 0, "error": 0, "joined": 0, "agree_with_model": 0, "callers": 0}
-    for gname, configs, k in gens:
+    for gname, configs, k, level in gens:
         tla, _ = vlib.wrapper(wd, gname, "Gen_Pool, MC_Pool", {}, [])
         cfg = write_cfg(wd, gname, spec="Spec", configs=configs, k=k, dl="required", udp="required", tail="INVARIANT Emit")
         cases, st = vlib.gen(tla, cfg, wd, workers=W, timeout=1500)
@@ -129,6 +137,20 @@ def run(res, tier, seed):
             if d not in seen:
                 seen.add(d)
                 uniq.append(c)
+        if level == "socket":
+            # callers come one after the other there (over TCP a request carries no trace of its caller):
+            # keep the behaviours without joiners, `at` becomes the pause after the previous caller
+            seq = []
+            for c in uniq:
+                if any(mo["joined"] for mo in c["model"]):
+                    continue
+                prev_done = 0
+                for call, mo in zip(c["calls"], c["model"]):
+                    at = call["at"]
+                    call["at"] = max(at - prev_done, 0)
+                    prev_done = at + mo["took"]
+                seq.append(c)
+            uniq = seq
         if not uniq:
             raise vlib.ToolError(f"generator {gname} produced no cases")
         vlib.log(f"[c18] {gname}: {len(uniq)} cases ({len(cases)} completed behaviours)")
@@ -136,10 +158,11 @@ def run(res, tier, seed):
         vlib.write_ndjson(cpath, uniq)
         tpath = os.path.join(wd, f"{gname}.trace.ndjson")
         vpath = os.path.join(wd, f"{gname}.verdicts.ndjson")
-        vlib.run_driver("drive_pool", ["replay", "--trace", tpath], stdin_path=cpath, stdout_path=vpath)
+        vlib.run_driver("drive_pool", ["replay", "--level", level, "--trace", tpath], stdin_path=cpath, stdout_path=vpath)
         # case ids must be unique across generators
+        pre = "k" if level == "socket" else "g"
         with open(tpath) as f:
-            txt = f.read().replace('"case":"g', f'"case":"{gname}-')
+            txt = f.read().replace(f'"case":"{pre}', f'"case":"{gname}-')
         with open(tpath, "w") as f:
             f.write(txt)
         traces.append(tpath)
@@ -147,7 +170,7 @@ def run(res, tier, seed):
         for v, c in zip(vlib.read_ndjson(vpath), uniq):
             n += 1
             res.evaluations += 1
-            v["case"] = v["case"].replace("g", gname + "-", 1)
+            v["case"] = v["case"].replace(pre, gname + "-", 1)
             verdicts[v["case"]] = v
             if v.get("nontrivial") or len(c["calls"]) > 1:
                 res.nontrivial.add(vlib.digest(v["input"]))
@@ -176,6 +199,16 @@ def run(res, tier, seed):
     vlib.run_driver("drive_pool", ["record", "--trace", rpath, "--n", str(n_rand), "--seed", str(seed), "--max-servers", "6"],
                     stdout_path=os.path.join(wd, "random.out"))
     traces.append(rpath)
+    # socket level: the real connections on scripted sockets (refused / black-holed / slow connects, idle-closed
+    # connections, slow replies), callers one after the other
+    n_sock = 8000 if thorough else 1200
+    spath = os.path.join(wd, "random_sock.trace.ndjson")
+    vlib.run_driver("drive_pool", ["record", "--level", "socket", "--trace", spath, "--n", str(n_sock), "--seed", str(seed)],
+                    stdout_path=os.path.join(wd, "random_sock.out"))
+    traces.append(spath)
+    res.traces += n_sock
+    res.evaluations += n_sock
+    res.extra["random_socket_level_cases_recorded"] = n_sock
     all_trace = os.path.join(wd, "all.trace.ndjson")
     with open(all_trace, "w") as out:
         for t in traces:
